@@ -303,6 +303,11 @@ fn generate_runs(run_seed: u64, tier: Tier) -> RunsScenario {
     if irng.chance(1, 5) {
         crate::esim::inject_invalid_byte(&mut script, &mut irng);
     }
+    // own sub-stream: 1 in 4 scripts carry keep-alive / unknown-type events inside a response
+    let mut orng = Rng::derive(run_seed, "c07:odd-events");
+    if orng.chance(1, 4) {
+        crate::esim::inject_odd_events(&mut script, &mut orng);
+    }
     RunsScenario { cfg, with_provider, script, steps }
 }
 
